@@ -95,6 +95,10 @@ func BeginBlocker(ctx sdk.Context, k keeper.Keeper) {
 
 func GetRewardAge(pool types.Pool) uint {
 	totalReward, _ := sdk.ParseCoinNormalized(TOTAL_REWARD)
+	if pool.TotalReward.IsGTE(totalReward) {
+		// everything has been minted: an age beyond the bit length of any block reward ends minting
+		return 256
+	}
 	remain := totalReward.Sub(pool.TotalReward)
 	t, _ := new(big.Float).SetInt(totalReward.Amount.Quo(remain.Amount).BigInt()).Float64()
 	return uint(math.Log2(t))
